@@ -78,7 +78,7 @@ func checkC15(c *Ctx, r *Report) {
 				a0, a1 := sliceOf(cl.Common().Args[0]), sliceOf(cl.Common().Args[1])
 				isNew := func(a *sliceAtoms) bool {
 					for p := range a.Params {
-						if p.Name() == "newSegments" {
+						if paramTyped(p, "[]string") {
 							return len(a.Calls) == 0
 						}
 					}
@@ -101,7 +101,7 @@ func checkC15(c *Ctx, r *Report) {
 				ea, eb := sliceOf(args[2]), sliceOf(args[3])
 				okA := false
 				for p := range ea.Params {
-					if p.Name() == "entry" {
+					if paramTyped(p, "*core/validators/paths.RouteEntry") {
 						okA = true
 					}
 				}
@@ -124,7 +124,7 @@ func checkC15(c *Ctx, r *Report) {
 				a := sliceOf(cl.Common().Args[1])
 				isEntry := false
 				for p := range a.Params {
-					if p.Name() == "entry" {
+					if paramTyped(p, "*core/validators/paths.RouteEntry") {
 						isEntry = true
 					}
 				}
@@ -220,7 +220,7 @@ func checkC15(c *Ctx, r *Report) {
 		v3 := ""
 		var s3 []string
 		var outer *ast.RangeStmt
-		for _, l := range w.rangeLoops(fi, func(e ast.Expr) bool { id, ok := e.(*ast.Ident); return ok && id.Name == "entries" }) {
+		for _, l := range w.rangeLoops(fi, w.paramOfType(fi, "[]core/validators/paths.RouteEntry")) {
 			outer = l
 		}
 		hasGoto := containsNode(fi.Decl, func(n ast.Node) bool {
@@ -294,7 +294,7 @@ func checkC15(c *Ctx, r *Report) {
 
 	// ---- C15.b completeness conditions visible in the code shape
 	ruleEach(c, r, "C15.b", fc,
-		func(fi *FuncInfo) func(ast.Expr) bool { return identNamed("newSegments") }, "newSegments",
+		func(fi *FuncInfo) func(ast.Expr) bool { return w.rangeOverType(fi, "[]string") }, "newSegments",
 		func(fi *FuncInfo) func(ast.Node) bool { return w.callPred(fi, reports...) }, "report*",
 		nil, false, "every segment of every entry is compared against the siblings registered so far (no segment skips the report functions)")
 	if fi := need(c, r, "C15.b", fc); fi != nil {
@@ -323,7 +323,7 @@ func checkC15(c *Ctx, r *Report) {
 		r.add("C15.b", "each-iteration", fc+":param-arm-calls-both", "a parameter segment is compared against literal siblings and against the parameter sibling, unconditionally", []string{fc}, sites, viol)
 	}
 	ruleEach(c, r, "C15.b", fc,
-		func(fi *FuncInfo) func(ast.Expr) bool { return identNamed("entries") }, "entries",
+		func(fi *FuncInfo) func(ast.Expr) bool { return w.paramOfType(fi, "[]core/validators/paths.RouteEntry") }, "entries",
 		func(fi *FuncInfo) func(ast.Node) bool {
 			isAdd := w.callPred(fi, ac)
 			return func(n ast.Node) bool {
@@ -347,12 +347,21 @@ func checkC15(c *Ctx, r *Report) {
 		viol := ""
 		var sites []string
 		var lit *ast.FuncLit
+		var litObj types.Object // the variable the walk closure is bound to (it calls itself through it)
 		ast.Inspect(fi.Decl, func(n ast.Node) bool {
-			if fl, ok := n.(*ast.FuncLit); ok && lit == nil {
-				lit = fl
+			if as, ok := n.(*ast.AssignStmt); ok && lit == nil && len(as.Lhs) == 1 && len(as.Rhs) == 1 {
+				if fl, ok := as.Rhs[0].(*ast.FuncLit); ok {
+					if id, ok := as.Lhs[0].(*ast.Ident); ok {
+						lit, litObj = fl, fi.Pkg.TypesInfo.ObjectOf(id)
+					}
+				}
 			}
 			return true
 		})
+		isWalk := func(e ast.Expr) bool {
+			id, ok := e.(*ast.Ident)
+			return ok && litObj != nil && fi.Pkg.TypesInfo.ObjectOf(id) == litObj
+		}
 		if lit == nil {
 			viol = "dfs closure not found"
 		} else {
@@ -366,7 +375,7 @@ func checkC15(c *Ctx, r *Report) {
 						if len(x.Body.List) == 1 {
 							if es, ok := x.Body.List[0].(*ast.ExprStmt); ok {
 								if cl, ok := es.X.(*ast.CallExpr); ok {
-									if id, ok := cl.Fun.(*ast.Ident); ok && id.Name == "dfs" {
+									if isWalk(cl.Fun) {
 										inRange = true
 									}
 								}
@@ -374,7 +383,7 @@ func checkC15(c *Ctx, r *Report) {
 						}
 					}
 				case *ast.CallExpr:
-					if id, ok := x.Fun.(*ast.Ident); ok && id.Name == "dfs" && len(x.Args) == 1 {
+					if isWalk(x.Fun) && len(x.Args) == 1 {
 						if se, ok := x.Args[0].(*ast.SelectorExpr); ok && se.Sel.Name == "paramChild" {
 							onParam = true
 							sites = append(sites, w.pos(x.Pos()))
@@ -497,11 +506,15 @@ func checkC15(c *Ctx, r *Report) {
 		r.add("C15.d", "fieldflow", gre+":Method", "RouteEntry.Method = the route's @Method value", []string{gre}, s2, v2)
 	}
 	ruleEach(c, r, "C15.d", gre,
-		func(fi *FuncInfo) func(ast.Expr) bool { return w.rangeOverField(fi, "core/metadata.ControllerMeta.Receivers") }, "controller.Receivers",
-		func(fi *FuncInfo) func(ast.Node) bool { return w.appendTo(fi, identNamed("entries")) }, "append(entries, …)", nil, false, "every receiver of every controller becomes a route entry")
+		func(fi *FuncInfo) func(ast.Expr) bool {
+			return w.rangeOverField(fi, "core/metadata.ControllerMeta.Receivers")
+		}, "controller.Receivers",
+		func(fi *FuncInfo) func(ast.Node) bool { return w.appendTo(fi, w.resultSlice(fi)) }, "append(entries, …)", nil, false, "every receiver of every controller becomes a route entry")
 	const vc = "(*core/validators.ApiValidator).validateControllers"
 	ruleEach(c, r, "C15.d", vc,
-		func(fi *FuncInfo) func(ast.Expr) bool { return w.rangeOverField(fi, "core/validators.ApiValidator.controllers") }, "v.controllers",
+		func(fi *FuncInfo) func(ast.Expr) bool {
+			return w.rangeOverField(fi, "core/validators.ApiValidator.controllers")
+		}, "v.controllers",
 		func(fi *FuncInfo) func(ast.Node) bool { return w.callPred(fi, gre) }, "getRouteEntries", nil, true, "every controller's routes are fed to the detector")
 
 	// ---- C15.e every conflict produces a warning for both entries
@@ -511,7 +524,7 @@ func checkC15(c *Ctx, r *Report) {
 		g := w.cfgOf(fi)
 		viol := ""
 		var sites []string
-		loops := w.rangeLoops(fi, identNamed("conflicts"))
+		loops := w.rangeLoops(fi, w.rangeOverType(fi, "[]core/validators/paths.Conflict"))
 		if len(loops) != 1 {
 			viol = fmt.Sprintf("expected one loop over conflicts, found %d", len(loops))
 		}
